@@ -652,7 +652,14 @@ def rule_R4_R5_R6(ctx):
         if p and qb is fbm and not p["pr"]:
             # copy chain to the min local
             okq = (_copy_root(fbm, p["l"]) == ml)
-        elif p:
+        if p and qb is fbm and not okq:
+            # .. or the value the min local holds at the call (read through a reference: the closure of `.map(..)` written out)
+            nst_ = len(fbm.blocks[blk]["s"])
+            at = T.strip(S.operand(a, blk, nst_))
+            while at[0] in ("ref", "deref"):
+                at = T.strip(at[2] if at[0] == "ref" else at[1])
+            okq = at == T.strip(S.operand({"c": {"l": ml, "pr": []}}, blk, nst_))
+        elif p and qb is not fbm:
             # captured variable of the closure: the operand the closure was created with
             at = T.strip(T.expand_upvars(P, qb, T.Slicer(qb, P).operand(a, blk, len(qb.blocks[blk]["s"])), depth=2))
             while at[0] in ("upvar", "ref", "deref"):
